@@ -64,8 +64,110 @@ func setKeyField(msg any, field string, key any) {
 	}
 }
 
+// c12Rereg runs in its own process (it changes process-wide tables): every table offers an exported
+// Registry<Table>Factory function for run-time registration; at the pinned commit a later registration of a key
+// replaces the earlier one.  After key k1 is re-registered with the type pinned for k2, "the type registered for
+// k1" is that type: the factory must answer with it and the decoder must build it - then the original
+// registration is put back and must be in force again.
+func c12Rereg(e *Env) {
+	r := e.R
+	obs := map[string]int{}
+	for _, tc := range e.tableCtxs() {
+		tb, owner := tc.tb, tc.owner
+		reg := bind.Registrars[tb.QName]
+		if reg == nil || len(tb.Entries) < 2 {
+			continue
+		}
+		en1 := tb.Entries[0]
+		var en2 *schema.Entry
+		for i := range tb.Entries[1:] {
+			if tb.Entries[1+i].Type != en1.Type {
+				en2 = &tb.Entries[1+i]
+				break
+			}
+		}
+		if en2 == nil {
+			continue
+		}
+		t1, t2 := e.S.Lookup(owner.Pkg, en1.Type), e.S.Lookup(owner.Pkg, en2.Type)
+		v1 := e.Gen(&gen.Opts{NoNilBody: true, ForceKey: map[string]any{tb.QName: en1.Key}}, "C12-rereg", tb.QName, 1).Value(owner)
+		v2 := e.Gen(&gen.Opts{NoNilBody: true, ForceKey: map[string]any{tb.QName: en2.Key}}, "C12-rereg", tb.QName, 2).Value(owner)
+		img1, toks1, err1 := e.C.EncodeTok(owner, val.Clone(v1))
+		img2, toks2, err2 := e.C.EncodeTok(owner, val.Clone(v2))
+		if err1 != nil || err2 != nil {
+			continue
+		}
+		site := owner.QName + "." + tc.uf.Key
+		k1, k2 := -1, -1
+		for i, tk := range toks1 {
+			if tk.Site == site {
+				k1 = i
+				break
+			}
+		}
+		for i, tk := range toks2 {
+			if tk.Site == site {
+				k2 = i
+				break
+			}
+		}
+		if k1 < 0 || k2 < 0 || toks1[k1].W != toks2[k2].W {
+			continue
+		}
+		// the image of v2 (body of type t2) carrying key k1
+		img := append([]byte(nil), img2...)
+		copy(img[toks2[k2].Off:toks2[k2].Off+toks2[k2].W], img1[toks1[k1].Off:toks1[k1].Off+toks1[k1].W])
+		det := map[string]any{"table": tb.QName, "owner": owner.QName, "key": fmtKey(en1.Key), "pinned_type": t1.QName, "re-registered_with": t2.QName}
+		_, p := mon.Call(func() error {
+			reg(en1.Key, func() codec.BinaryCodec { return e.C.New[t2.QName]().(codec.BinaryCodec) })
+			return nil
+		})
+		r.Evals(1)
+		if p != nil {
+			det["panic"] = p.Value
+			r.Violate("C12/re-registration-panics/"+tb.QName, "C12/re-registration/"+tb.QName, det)
+			continue
+		}
+		want2 := reflect.TypeOf(e.C.New[t2.QName]())
+		m, ferr := tc.factory(en1.Key)
+		d := e.C.New[owner.QName]()
+		buf := bytes.NewBuffer(append([]byte(nil), img...))
+		derr, dp := LibDecode(d, buf)
+		body := reflect.ValueOf(d).Elem().FieldByName(tc.uf.Name)
+		switch {
+		case ferr != nil || reflect.TypeOf(m) != want2:
+			det["factory_answer"], det["factory_error"] = fmt.Sprintf("%T", m), fmt.Sprint(ferr)
+			r.Violate("C12/factory-ignores-re-registration/"+tb.QName, "C12/re-registration/"+tb.QName, det)
+		case dp != nil || derr != nil || buf.Len() != 0 || dynType(body) != want2.String():
+			det["decode_error"], det["panic"], det["left_in_buffer"], det["decoder_built"] = fmt.Sprint(derr), fmt.Sprint(dp), buf.Len(), dynType(body)
+			r.Violate("C12/decoder-ignores-re-registration/"+tb.QName, "C12/re-registration/"+tb.QName, det)
+		default:
+			if diff := val.Equal(reflect.ValueOf(v2).Elem().FieldByName(tc.uf.Name).Interface(), body.Interface()); diff != "" {
+				det["first_difference"] = diff
+				r.Violate("C12/decoder-ignores-re-registration/"+tb.QName, "C12/re-registration/"+tb.QName, det)
+			} else {
+				obs["tables-honouring-a-later-registration"]++
+			}
+		}
+		// put the pinned registration back: it must be in force again
+		reg(en1.Key, func() codec.BinaryCodec { return e.C.New[t1.QName]().(codec.BinaryCodec) })
+		if m, ferr := tc.factory(en1.Key); ferr != nil || reflect.TypeOf(m) != reflect.TypeOf(e.C.New[t1.QName]()) {
+			det["factory_answer_after_restoring"] = fmt.Sprintf("%T", m)
+			r.Violate("C12/factory-ignores-re-registration/"+tb.QName, "C12/re-registration/"+tb.QName, det)
+		} else {
+			obs["tables-restored"]++
+		}
+		r.Distinct(val.Hash(tb.QName + "/rereg"))
+	}
+	r.Set("re_registration", obs)
+}
+
 func c12(e *Env) {
 	r := e.R
+	if len(e.Args) > 0 && e.Args[0] == "reregistration-child" {
+		c12Rereg(e)
+		return
+	}
 	r.Rule("all 18 discriminator tables. Registered keys (226): decode of a reference-built image (into a fresh receiver and into a receiver that just decoded another member of the same table, followed by an unregistered key into that same receiver), encode-fill with a nil body/extension where the encoder fills (BjseBinary and the 13 extended messages), public factory; bodies: zero and 3..20 canonical values. Unregistered keys: factory probed on the whole u16 space, on every u32 key < 2^20 (thorough 2^24), every key within Hamming distance <= 2 or one decimal-digit edit of a registered key, byte-swapped registered keys and 10^5 (thorough 10^7) random others; string tables on every string of length <= 3 over {0-9,space,NUL,'A',0xFF,'-','+'} plus every single-byte edit of a registered key over all 256 byte values (thorough: ALL byte strings of length <= 3, 16.8 M per table); decode and encode-fill probed on a sample of those keys. distinct_nontrivial = distinct (table, key) pairs probed")
 	r.Explain("Oracle: the pinned key→type tables (frozen at the baseline commit). Registered key ⇒ decoder builds exactly the pinned type (reflect type identity) and the value round-trips; encoder fills exactly that type and its bytes equal the reference rendering with a zero body; factory returns that type. Unregistered key ⇒ factory returns (nil, error); Decode returns an error without panicking and leaves the body nil/unchanged; encode-fill returns an error; frames that do not fill (SSE, SZSE, risk, sample root) encode a nil body as an empty body and do not invent one. The set of keys a factory answers is thus compared with the pinned set in both directions.")
 	r.Assume("u32 key spaces are swept exhaustively only below 2^20/2^24 (every registered number is < 2^20); the rest is sampled")
@@ -221,6 +323,25 @@ func c12(e *Env) {
 					continue
 				}
 				lf["registered:nil-body-stays-nil"]++
+			}
+			// the same through the generated constructor: NewT() with only the discriminator set must encode exactly
+			// like &T{} with only the discriminator set (a constructor that pre-populates a body or an extension
+			// decides the type before the discriminator is known)
+			if ctor := bind.Ctors[owner.QName]; ctor != nil {
+				c, z := ctor(), e.C.New[owner.QName]()
+				setKeyField(c, tc.uf.Key, en.Key)
+				setKeyField(z, tc.uf.Key, en.Key)
+				zw, zerr, zp := EncodeFresh(z)
+				cw, cerr, cp := EncodeFresh(c)
+				r.Evals(1)
+				if zp == nil && ((cp != nil) || (zerr == nil) != (cerr == nil) || (zerr == nil && !bytes.Equal(zw, cw))) {
+					d := det(firstDiffPlain(cw, zw))
+					d["constructor_result_error"], d["zero_value_error"], d["constructor_result_panic"] = fmt.Sprint(cerr), fmt.Sprint(zerr), fmt.Sprint(cp)
+					d["body_in_constructor_result_after_encode"] = dynType(reflect.ValueOf(c).Elem().FieldByName(tc.uf.Name))
+					r.Violate(fmt.Sprintf("C12/constructor-result-encodes-differently-from-zero-value/%s/%v", tb.QName, en.Key), "C12/constructor-result/"+tb.QName, d)
+					continue
+				}
+				lf["registered:constructor-result≡zero-value"]++
 			}
 		}
 		acc.merge(lf)
@@ -444,6 +565,7 @@ func c12(e *Env) {
 		}
 		exMu <- struct{}{}
 	})
+	runVariantChild(e, "reregistration-child", "rereg", "run_time_re_registration_in_a_child_process", "run-time re-registration")
 	r.Evals(probes)
 	r.DistinctAdd(probes) // every probe is a distinct (table,key) pair except the handful of overlaps between sweeps
 	r.Set("tables", len(tcs))
